@@ -21,6 +21,7 @@
   record.
 -/
 import MdProofs.Lemmas.CfiEnvGen
+import MdProofs.Lemmas.CfiEnvX86
 import MdProofs.Lemmas.WalkMixedArch
 namespace MdModel.CfiBridge
 open MdModel
@@ -70,5 +71,68 @@ theorem walk_frames_follow_c06W {a : Walk.Arch} (ha : a ≠ .x86) (os : Walk.Os)
 /-- non-vacuity: the six non-x86 context kinds are six -/
 example : ∀ a : Walk.Arch, a ≠ .x86 ↔ a ∈ [.amd64, .arm, .arm64, .arm64old, .mips32, .mips64] := by
   intro a; cases a <;> simp
+
+/-! ## x86 with STACK WIN records: what a `cfi` frame is -/
+
+/-- **frame `f` of trust `cfi` above `p` in `mkEnvW` on x86**: `p`'s `esp` is valid; a module `i`
+    with symbol file `sf` covers `p`'s lookup address; with `(fd, fpo)` the frame-data / FPO STACK WIN
+    records of that module at the module-relative address (none, when the file has none there), the
+    caller context `r = f.ctx` is
+
+    * EITHER (`.inl`) what C07's `Win.winResult` (the subject of `MdProofs.C07`: `walkSelected`,
+      `MdProofs.C04Win`'s `FrameIs`) returns with success on `p`'s `winWalker` — a STACK WIN frame;
+    * OR (`.inr`) STACK WIN had nothing to evaluate (`.ok (false, c)`, `c` = the callee's registers
+      re-read as a caller) and `r` is STACK CFI evaluation `Walk.walkFrameCfi` (C06's evaluator,
+      `MdProofs.C06Walk.walkFrame_eq_c06`) of `sf`'s record on that walker — a STACK CFI frame;
+
+    and the epilogue of `get_caller_frame` holds (`ip ≥ 4096`, lookup address = `ip − 1`, stack
+    pointer strictly above `p`'s: x86 has no leaf exception). -/
+def CfiFrameX86 (w : Walk.World) (wins : List (List Win.Rec)) (mem0 : Walk.Mem) (p f : Walk.Frame) : Prop :=
+  p.ctx.hasLit "esp" = true ∧
+  ∃ g r i m sf fd fpo,
+    f.ctx = r ∧ f.trust = .cfi ∧ 4096 ≤ r.ip ∧ f.instruction = r.ip - Walk.Arch.x86.adj ∧ p.ctx.sp < r.sp ∧
+    Walk.moduleAt (Walk.modTable w.mods) p.instruction = some i ∧ w.mods[i]? = some m ∧
+    w.syms[i]? = some (some sf) ∧ m.base ≤ p.instruction ∧
+    ((wins.map Walk.winTables)[i]?.getD Walk.WinTables.empty).at (p.instruction - m.base) = (fd, fpo) ∧
+    ((∃ c, Win.winResult Win.clearNamesActual fd fpo (Walk.winWalker mem0 p g) (Walk.callerOfCtx p.ctx) = .ok (true, c) ∧
+        r = Walk.ctxOfCaller c) ∨
+     (∃ c o, Win.winResult Win.clearNamesActual fd fpo (Walk.winWalker mem0 p g) (Walk.callerOfCtx p.ctx) = .ok (false, c) ∧
+        Walk.walkFrameCfi sf (Walk.cfiTable sf) m.base { arch := .x86, callee := p.ctx, mem := mem0 }
+          { Walk.cfiOutOfCaller c with ctx := { (Walk.cfiOutOfCaller c).ctx with valid := p.ctx.valid } }
+          p.instruction = some o ∧
+        r = { o.ctx with valid := some o.valid }))
+
+/-- **`walk_cfi_frames_x86W`** — the x86 counterpart of `walk_frames_follow_c06W`: every frame of
+    trust `cfi` of every walk in `mkEnvW .x86 …` (any context, no well-formedness needed) is a STACK
+    WIN frame or a STACK CFI frame in the sense of `CfiFrameX86`; for some grand-callee frame `g`
+    (`walk_stack` passes the frame below `p`; STACK WIN evaluation reads its parameter size). -/
+theorem walk_cfi_frames_x86W (os : Walk.Os) (w : Walk.World) (wins : List (List Win.Rec)) (mem0 : Walk.Mem)
+    (mem : Option Walk.Mem) (ctx : Walk.Ctx) :
+    ∀ (i : Nat) (h : i + 1 < (Walk.walk (Walk.mkEnvW .x86 os w wins mem0) mem ctx).length),
+      (Walk.walk (Walk.mkEnvW .x86 os w wins mem0) mem ctx)[i + 1].trust = .cfi →
+      CfiFrameX86 w wins mem0 (Walk.walk (Walk.mkEnvW .x86 os w wins mem0) mem ctx)[i]
+        (Walk.walk (Walk.mkEnvW .x86 os w wins mem0) mem ctx)[i + 1] := by
+  intro i h ht
+  obtain ⟨m, g, f', _, _, hstep, hf⟩ := walk_steps_raw (Walk.mkEnvW .x86 os w wins mem0) mem ctx i h
+  generalize (Walk.walk (Walk.mkEnvW .x86 os w wins mem0) mem ctx)[i] = p at hstep ⊢
+  generalize (Walk.walk (Walk.mkEnvW .x86 os w wins mem0) mem ctx)[i + 1] = f at ht hf ⊢
+  subst hf
+  have ht' : f'.trust = .cfi := ht
+  obtain ⟨r, hc, hip, hsp, hfr⟩ := (cfi_frame_epilogue _ m p f' g).mp ⟨hstep, ht'⟩
+  obtain ⟨hesp, hw⟩ := mkEnvW_cfi_x86_some hc
+  obtain ⟨k, md, sf, ct, fd, fpo, hk, hm, hs, hct, hlo, hat, hcase⟩ := cfiWalkW_cases hw
+  have hs' : w.syms[k]? = some (some sf) := by
+    cases hq : w.syms[k]? with
+    | none => rw [hq] at hs; cases hs
+    | some o => rw [hq] at hs; cases o <;> simp_all
+  have hct' : ct = Walk.cfiTable sf := by
+    rw [cfiTables_get, hs'] at hct
+    exact (Option.some.inj hct).symm
+  subst hct'
+  have hsp' : p.ctx.sp < r.sp := by
+    rcases hsp with hlt | ⟨hl, _, _⟩
+    · exact hlt
+    · cases hl
+  refine ⟨hesp, g, r, k, md, sf, fd, fpo, by rw [hfr]; rfl, ht, hip, by rw [hfr]; rfl, hsp', hk, hm, hs', hlo, hat, hcase⟩
 
 end MdModel.CfiBridge
